@@ -710,13 +710,12 @@ theorem inputs_guessable (u : UC) (texts : List Text) : ValuesGuessable u (Loade
   obtain ⟨t, _, ht⟩ := hm
   exact acceptedStmts_guessable u t kind values names ht v hv
 
-/-- NO BUILT-IN EXCEPTION, for a loader: whatever texts were fed to it, if the statements it holds use no identifier of the
-    form `__x__` in an attribute position, its build returns a metamodel or raises the metamodel or the parsing exception -/
-theorem loader_build_documented (u : UC) (texts : List Text)
-    (hp : touchesInternals (Loader.inputs u Loader.fresh texts).statements = false) :
+/-- NO BUILT-IN EXCEPTION, for a loader: whatever texts were fed to it, its build returns a metamodel or raises the metamodel
+    or the parsing exception -/
+theorem loader_build_documented (u : UC) (texts : List Text) :
     (∃ s, (Loader.inputs u Loader.fresh texts).build u = .ok s) ∨
     (Loader.inputs u Loader.fresh texts).build u = .error .metaErr ∨
     (Loader.inputs u Loader.fresh texts).build u = .error .parseErr :=
-  build_documented u _ hp (inputs_guessable u texts)
+  build_documented u _ (inputs_guessable u texts)
 
 end Pyx.Sql
